@@ -6,6 +6,8 @@ import itertools
 DEC = (0.1, 0.2, 0.3, 0.7, 1.1, 1.3, 2.3)  # non-dyadic decimals
 DEC_EDGES = (0.15, 0.45, 0.9, 1.2, 1.9)
 DEC_DUR = (0.1, 0.3, 0.7, 1.7)
+# ulp-neighbour grid: pairs of floats one ulp apart (0.1+0.2 vs 0.3, 0.1+0.7 vs 0.8) - near-coincidences that are not coincidences
+ULP = (0.1, 0.3, 0.1 + 0.2, 0.1 + 0.7, 0.8, 1.3)
 SLV = (1e-12, 1e-10, 5e-9, 9.9e-9, 1e-8, 1.1e-8, 2e-8, 5e-8)
 
 
